@@ -94,31 +94,53 @@ Compacted(G, C) ==
 Inner(C, n) == IF n \in DOMAIN C THEN SubSeq(C[n], 1, Len(C[n]) - 1) ELSE <<>>
 
 \* ---- path enumeration (read_graph.rs build_variant_groups) -------------------------
-\* The walk from a state [cur, vis, vv, ids, depth].  A node is stepped on if it is not marked visited;
-\* stepping on an exit node SAVES the path (with the chain nodes that follow it) and the walk goes on; where
-\* several edges lead to unvisited nodes (a double edge counts twice) the walk forks with depth + 1, and a fork
-\* deeper than maxDepth is abandoned (after its first step has been saved if that is an exit node).
-RECURSIVE Cont(_, _, _, _, _)
+\* Neighbours are tried in the order of the adjacency list: sorted by packed value (fix F13), i.e. lexicographically
+\* on digits; the two copies of a double edge are interchangeable.
+EdgeLess(a, b) == IF a.dst # b.dst THEN LexLess(a.dst, b.dst) ELSE a.id[2] < b.id[2]
+EdgeSeq(S) == SetToSortSeq(S, EdgeLess)
+
+\* (G below is the adjacency function: node -> sequence of its outgoing edges in that order.)
+\* The walk from a state [cur, vis, vv, ids, depth], as the SEQUENCE of saved paths in the order the code saves them
+\* (the order decides REF/ALT of an indel whose alleles are equally frequent).  A node is stepped on if it is not
+\* marked visited; stepping on an exit node SAVES the path (with the chain nodes that follow it) and the walk goes
+\* on; where several edges lead to unvisited nodes (a double edge counts twice) every such step is saved first, in
+\* order, and the forks are then explored last-first (a stack) with depth + 1; a fork deeper than maxDepth is
+\* abandoned.
 Step(C, X, st, e) == [cur |-> e.dst, vis |-> st.vis \cup {e.dst}, vv |-> Append(st.vv, e.dst) \o Inner(C, e.dst),
                       ids |-> Append(st.ids, e.id), depth |-> st.depth]
-SavedOf(X, st2, e) == IF e.dst \in X THEN {[vv |-> st2.vv, ids |-> st2.ids, x |-> e.dst]} ELSE {}
+SavedOf(X, st2, e) == IF e.dst \in X THEN <<[vv |-> st2.vv, ids |-> st2.ids, x |-> e.dst]>> ELSE <<>>
+RECURSIVE Cont(_, _, _, _, _)
 Cont(G, C, X, maxDepth, st) ==
-   LET nxt == {e \in Out(G, st.cur) : e.dst \notin st.vis} IN
-   IF nxt = {} THEN {}
-   ELSE IF Cardinality(nxt) = 1
-        THEN LET e == CHOOSE x \in nxt : TRUE
-                 st2 == Step(C, X, st, e)
-             IN SavedOf(X, st2, e) \cup Cont(G, C, X, maxDepth, st2)
-        ELSE UNION {LET st2 == Step(C, X, st, e) IN
-                    SavedOf(X, st2, e) \cup (IF st.depth + 1 > maxDepth THEN {}
-                                              ELSE Cont(G, C, X, maxDepth, [st2 EXCEPT !.depth = st.depth + 1])) : e \in nxt}
+   LET nxt == IF st.cur \in DOMAIN G THEN SelectSeq(G[st.cur], LAMBDA e : e.dst \notin st.vis) ELSE <<>>
+       m == Len(nxt)
+       RECURSIVE saves(_)
+       saves(i) == IF i > m THEN <<>> ELSE SavedOf(X, Step(C, X, st, nxt[i]), nxt[i]) \o saves(i + 1)
+       RECURSIVE forks(_)
+       forks(i) == IF i < 1 THEN <<>>
+                   ELSE Cont(G, C, X, maxDepth, [Step(C, X, st, nxt[i]) EXCEPT !.depth = st.depth + 1]) \o forks(i - 1)
+   IN IF m = 0 THEN <<>>
+      ELSE IF m = 1
+           THEN LET st2 == Step(C, X, st, nxt[1]) IN SavedOf(X, st2, nxt[1]) \o Cont(G, C, X, maxDepth, st2)
+           ELSE saves(1) \o (IF st.depth + 1 > maxDepth THEN <<>> ELSE forks(m))
 
 SavedPaths(G, C, X, maxDepth, e) ==
-   UNION {Cont(G, C, X, maxDepth, [cur |-> f.dst, vis |-> {e, f.dst}, vv |-> <<e, f.dst>> \o Inner(C, f.dst),
-                                   ids |-> <<f.id>>, depth |-> 0]) : f \in Out(G, e)}
+   LET first == IF e \in DOMAIN G THEN G[e] ELSE <<>>
+       RECURSIVE from(_)
+       from(i) == IF i > Len(first) THEN <<>>
+                  ELSE Cont(G, C, X, maxDepth, [cur |-> first[i].dst, vis |-> {e, first[i].dst},
+                                                vv |-> <<e, first[i].dst>> \o Inner(C, first[i].dst),
+                                                ids |-> <<first[i].id>>, depth |-> 0]) \o from(i + 1)
+   IN from(1)
 
 \* the base sequence a path spells: the entry (k-1)-mer, then the last digit of every further node
 SeqOfPath(p) == p[1] \o [i \in 1..(Len(p) - 1) |-> p[i + 1][Len(p[i + 1])]]
+
+\* candidate SNP positions of a path (0-based index into the spelled sequence): the base after an entry node, the base
+\* before an exit node.  `len - kg` is computed on unsigned integers: for paths shorter than kg it wraps (release build)
+\* and the guard is true.
+SnpPositions(vv, E, X, kg) ==
+   {i + kg : i \in {j \in 0..(Len(vv) - 1) : vv[j + 1] \in E /\ (Len(vv) < kg \/ j <= Len(vv) - kg)}}
+   \cup {i - 1 : i \in {j \in 0..(Len(vv) - 1) : vv[j + 1] \in X /\ ~(vv[j + 1] \in E /\ (Len(vv) < kg \/ j <= Len(vv) - kg))}}
 
 \* most common path length; ties go to the shorter one (fix F13: independent of map iteration order)
 MostCommonLength(ps) ==
@@ -126,27 +148,35 @@ MostCommonLength(ps) ==
        cnt(l) == Cardinality({p \in ps : Len(p.vv) = l})
    IN CHOOSE l \in lens : \A m \in lens : cnt(l) > cnt(m) \/ (cnt(l) = cnt(m) /\ l <= m)
 
-\* groups built from entry node e: <<entry, exit, set of <<sequence, edge ids>> >> (the ids keep apart the copies
-\* of a path that runs through a double edge)
-BuiltFrom(G, C, X, maxDepth, e) ==
-   LET saved == SavedPaths(G, C, X, maxDepth, e)
+\* groups built from entry node e, in walk order: <<entry, exit, SEQUENCE of variants [seq, pos, ids]>> (the ids keep apart
+\* the copies of a path that runs through a double edge)
+BuiltFromSeq(G, C, E, X, maxDepth, e, kg) ==
+   LET savedSeq == SavedPaths(G, C, X, maxDepth, e)
+       saved == {savedSeq[i] : i \in 1..Len(savedSeq)}
        exits == {p.x : p \in saved}
        at(x) == {p \in saved : p.x = x}
        worth == \E x \in exits : Cardinality(at(x)) > 1
-       kept(x) == IF Cardinality(at(x)) = 2 THEN at(x)
-                  ELSE LET l == MostCommonLength(at(x)) IN {p \in at(x) : Len(p.vv) = l}
+       keptSet(x) == IF Cardinality(at(x)) = 2 THEN at(x)
+                     ELSE LET l == MostCommonLength(at(x)) IN {p \in at(x) : Len(p.vv) = l}
+       keptSeq(x) == LET ks == keptSet(x) IN SelectSeq(savedSeq, LAMBDA p : p \in ks)
+       variant(p) == [seq |-> SeqOfPath(p.vv), pos |-> SnpPositions(p.vv, E, X, kg), ids |-> p.ids]
    IN IF ~worth THEN {}
-      ELSE {<<e, x, {<<SeqOfPath(p.vv), p.ids>> : p \in kept(x)}>> :
+      ELSE {<<e, x, [i \in 1..Len(keptSeq(x)) |-> variant(keptSeq(x)[i])]>> :
                x \in {y \in exits : /\ Cardinality({p.vv[2] : p \in at(y)}) > 1
                                     /\ Cardinality({p.vv[Len(p.vv) - 1] : p \in at(y)}) > 1}}
 
-BuiltGroups(T, maxDepth) ==
+BuiltGroupsSeq(T, maxDepth) ==
    LET E == EntryNodes(T)
        X == {RevComp(u) : u \in E}
        G0 == Graph0(T)
        C == Chains(G0, E \cup X)
-       G == Compacted(G0, C)
-   IN UNION {BuiltFrom(G, C, X, maxDepth, e) : e \in E}
+       G1 == Compacted(G0, C)
+       \* the adjacency lists the walk reads: per node, its outgoing edges in order
+       G == [u \in {f.src : f \in G1} |-> EdgeSeq(Out(G1, u))]
+   IN UNION {BuiltFromSeq(G, C, E, X, maxDepth, e, T.k - 1) : e \in E}
+\* the same without order: <<entry, exit, set of <<sequence, edge ids>> >>
+Unordered(B) == {<<g[1], g[2], {<<g[3][i].seq, g[3][i].ids>> : i \in 1..Len(g[3])}>> : g \in B}
+BuiltGroups(T, maxDepth) == Unordered(BuiltGroupsSeq(T, maxDepth))
 
 \* an indel group: exactly two paths of different lengths, one of them at most 2(k-1) long;
 \* every other group of at least two paths is a SNP group
